@@ -24,6 +24,7 @@ type WorkerOpts struct {
 	Cursor     string
 	Out        string
 	OnlyIndex  int64 // >=0: run exactly the case with this global enumeration index (crash re-run)
+	StopAfter  int64 // >0: stop after the case with this global index (replay of a shard's history)
 }
 
 type violRec struct {
@@ -129,6 +130,9 @@ func RunWorker(o WorkerOpts) int {
 	complete := true
 	d.Generate(o.Tier, func(c *Case) bool {
 		idx++
+		if o.StopAfter > 0 && idx > o.StopAfter {
+			return false
+		}
 		if o.OnlyIndex >= 0 {
 			if idx < o.OnlyIndex {
 				return true
